@@ -213,9 +213,16 @@ def write_replay(pid: str, name: str, payload: dict) -> str:
     h = hashlib.sha256(json.dumps(payload, sort_keys=True, default=str).encode()).hexdigest()[:12]
     safe = ''.join(c if c.isalnum() or c in '._-' else '_' for c in name)[:80]
     path = os.path.join(REPLAY_DIR, f'{pid}-{safe}-{h}.json')
-    with open(path, 'w') as f:
-        json.dump(payload, f, indent=1, default=str)
+    _write_json_atomically(path, payload)
     return path
+
+
+def _write_json_atomically(path: str, payload) -> None:
+    """Write next to the target and rename over it: a concurrent run of the same check never leaves or reads a half-written file."""
+    tmp = f'{path}.{os.getpid()}.tmp'
+    with open(tmp, 'w') as f:
+        json.dump(payload, f, indent=1, default=str)
+    os.replace(tmp, path)
 
 
 def do_replay(pid: str, path: str) -> int:
@@ -642,8 +649,7 @@ def main(argv=None) -> int:
         'wall_s': round(wall, 2), 'violations': len(violations),
     }
     os.makedirs(EVIDENCE_DIR, exist_ok=True)
-    with open(os.path.join(EVIDENCE_DIR, f'{pid}.json'), 'w') as f:
-        json.dump(evidence, f, indent=1, default=str)
+    _write_json_atomically(os.path.join(EVIDENCE_DIR, f'{pid}.json'), evidence)
     if args.update_baseline and (early_stop or violations or _SCRATCH_RUN):
         print('baseline NOT updated: the run reports violations or was made against a scratch copy')
     elif args.update_baseline:
